@@ -28,6 +28,18 @@ thread_local! {
 
 pub const FUSE_MSG: &str = "FUSE";
 
+thread_local! {
+    /// (logical key, closure decided to remove it) for every element handed to a user closure
+    static CBLOG: std::cell::RefCell<Vec<(u32, bool)>> = const { std::cell::RefCell::new(Vec::new()) };
+}
+/// Note an element handed to a user closure (before the closure's fuse may fire).
+pub fn cb_note(key: u32, removes: bool) {
+    crate::alloc::harness(|| CBLOG.with(|l| l.borrow_mut().push((key, removes))));
+}
+pub fn cb_log() -> Vec<(u32, bool)> {
+    CBLOG.with(|l| l.borrow().clone())
+}
+
 /// Count one invocation of callback `k`; panic if its fuse trips now.
 #[inline]
 pub fn tick(k: Cb) {
@@ -48,6 +60,7 @@ pub fn counts() -> [u64; 6] {
     CNT.with(|c| c.get())
 }
 pub fn reset_counts() {
+    crate::alloc::harness(|| CBLOG.with(|l| l.borrow_mut().clear()));
     CNT.with(|c| c.set([0; 6]));
     HLOG_N.with(|c| c.set(0));
 }
